@@ -41,6 +41,12 @@ pub open spec fn read_ok(w: World, ext_version: Seq<char>) -> bool {
 // one step of the automaton, flag unknown: used for "exactly one step per observation"
 pub open spec fn one_step(a: Abs, b: Abs) -> bool { b == step(a, true) || b == step(a, false) }
 
+pub proof fn lemma_run_push(h: Seq<bool>, ok: bool)
+    ensures run(init_abs(), h.push(ok)) == step(run(init_abs(), h), ok)
+{
+    assert(h.push(ok).drop_last() =~= h);
+}
+
 // ---- the sentences of the statement for the call sites ----------------------------------------------------
 // Any function that (i) starts in a state reached from `new()` by a history h, (ii) makes one observation `ok`,
 // steps once and (iii) publishes st_text of the state reached, publishes the automaton's output for h.push(ok):
